@@ -9,7 +9,7 @@ namespace BearVerif.Extracted
 def memoDecorators : List (String × String) := [
   ("callable_cached", "eq"),
   ("callable_cached_minimal", "eq"),
-  ("method_cached_arg_by_id", "id-raw"),
+  ("method_cached_arg_by_id", "id-pinned"),
   ("property_cached", "attr")]
 
 /-- functions decorated with a memoising decorator -/
@@ -90,7 +90,7 @@ def memoTables : List (String × String) := [
   ("beartype._check.cls.logic.logmap.HINT_SIGN_PEP484585_CONTAINER_TO_LOGIC", "eq"),
   ("beartype._check.code.codemain._HINT_CONF_TO_CHECK_EXPR", "eq"),
   ("beartype._check.code.codescope._tuple_union_to_tuple_union", "eq"),
-  ("beartype._check.convert._convcoerce._hint_repr_to_hint", "repr-raw"),
+  ("beartype._check.convert._convcoerce._hint_repr_to_hint", "repr-checked"),
   ("beartype._check.error._errmap.HINT_SIGN_TO_GET_CAUSE_FUNC", "eq"),
   ("beartype._check.forward.reference._cls.fwdrefmeta._ref_proxy_to_resolved_hint", "fwdref"),
   ("beartype._check.forward.reference._cls.fwdrefmeta._ref_proxy_to_resolved_type", "fwdref"),
@@ -103,7 +103,7 @@ def memoTables : List (String × String) := [
   ("beartype.door._func.doorfunc._HINT_CONF_EXCEPTION_PREFIX_TO_FUNC_RAISER", "eq"),
   ("beartype.door._func.doorfunc._HINT_CONF_EXCEPTION_PREFIX_TO_FUNC_TESTER", "eq")]
 
-def memoReprChecked : Bool := false
-def memoIdPinned : Bool := false
+def memoReprChecked : Bool := true
+def memoIdPinned : Bool := true
 
 end BearVerif.Extracted
